@@ -1,9 +1,194 @@
 import Driver.Util
-/-! line protocol for the C14 model (stub: replaced when the property's model is built) -/
+import ScenicModel.Model.Overrides
+import ScenicModel.Model.Veneer
+import ScenicModel.Gen.SimCleanup
+import ScenicModel.Gen.VeneerGlobals
+/-! line protocol for the C14 models (see tools/props/c14.py for the token grammar)
+
+  side                                   -> the decidable side conditions evaluated on the generated data
+  hist P o:<id>:<v,..> … sim:<a> ev … sim:<a> ev …   -> observations of a history of simulations
+  glob <sim|compile> op …                -> observations of a session of the veneer-globals model
+-/
 namespace Driver.C14
-open Driver
+open Driver Scenic.Overrides Scenic.Veneer
+
+def b2s (b : Bool) : String := if b then "1" else "0"
+
+def parseInts (s : String) : Option (List Int) :=
+  if s == "" then some [] else (s.splitOn ",").mapM (·.toInt?)
+
+def parsePairs (s : String) : Option (List (Nat × Int)) :=
+  if s == "" then some [] else
+  (s.splitOn ",").mapM fun t => match t.splitOn "=" with
+    | [p, v] => do let p ← p.toNat?; let v ← v.toInt?; pure (p, v)
+    | _ => none
+
+/-- one token of a `hist` line -/
+inductive Tok
+  | obj (o : Nat) (vals : List Int)       -- header: a scene object and its property values
+  | sim (agentsSet : Bool)
+  | ev (e : Ev)
+  | newObj (o : Nat) (vals : List Int)    -- an object created during the simulation
+  | read
+  | saved (s : Nat)
+  | fix (o p : Nat) (v : Int)             -- between simulations: the harness repaired a scene object
+
+def parseTok (t : String) : Option Tok :=
+  match t.splitOn ":" with
+  | ["o", o, vs] => do pure (.obj (← o.toNat?) (← parseInts vs))
+  | ["n", o, vs] => do pure (.newObj (← o.toNat?) (← parseInts vs))
+  | ["sim", a] => some (.sim (a == "1"))
+  | ["c", o] => do pure (.ev (.create (← o.toNat?)))
+  | ["w", o, p, v] => do pure (.ev (.write (← o.toNat?) (← p.toNat?) (← v.toInt?)))
+  | ["v", s, o, ps] => do pure (.ev (.override (← s.toNat?) (← o.toNat?) (← parsePairs ps)))
+  | ["p", s, par] => do pure (.ev (.prepare (← s.toNat?) (← par.toNat?)))
+  | ["s", s] => do pure (.ev (.start (← s.toNat?)))
+  | ["x", s] => do pure (.ev (.stop (← s.toNat?)))
+  | ["f", o, p, v] => do pure (.fix (← o.toNat?) (← p.toNat?) (← v.toInt?))
+  | ["r"] => some .read
+  | ["k", s] => do pure (.saved (← s.toNat?))
+  | _ => none
+
+def setOrig (w : World) (o : Nat) (vals : List Int) : World :=
+  { w with orig := fun o' p' => if o' = o then vals.getD p' 0 else w.orig o' p' }
+
+def showReads (f : Nat → Nat → Int) (objs : List Nat) (nprop : Nat) : String :=
+  ",".intercalate (objs.flatMap fun o => (List.range nprop).map fun p => s!"{o}.{p}:{f o p}")
+
+def showSaved (s : Saved) : String :=
+  let sorted := s.mergeSort (fun a b => a.1 < b.1 || (a.1 == b.1 && a.2.1 ≤ b.2.1))
+  ",".intercalate (sorted.map fun e => s!"{e.1}.{e.2.1}:{e.2.2}")
+
+structure HState where
+  w : World
+  stale : Saved
+  objs : List Nat                 -- all objects seen so far (for printing)
+  cur : Option (Bool × List Ev)   -- the simulation being read
+  out : List String
+
+def finishSim (cfg : Cfg) (nprop : Nat) (h : HState) : HState :=
+  match h.cur with
+  | none => h
+  | some (a, evs) =>
+    let r := runSim cfg h.w h.stale a evs
+    let line := s!"e={b2s r.ended};o={showReads r.w.orig h.objs nprop};x={",".intercalate ((h.objs.filter r.w.proxied).map toString)};s={showSaved r.stale}"
+    { h with w := r.w, stale := r.stale, cur := none, out := h.out ++ [line] }
+
+def histStep (cfg : Cfg) (nprop : Nat) (h : HState) : Tok → HState
+  | .obj o vals => { h with w := setOrig h.w o vals, objs := h.objs ++ [o] }
+  | .sim a => { finishSim cfg nprop h with cur := some (a, []) }
+  | .ev e => match h.cur with
+      | some (a, evs) => { h with cur := some (a, evs ++ [e]) }
+      | none => h
+  | .newObj o vals => match h.cur with
+      | some (a, evs) => { h with w := setOrig h.w o vals, objs := h.objs ++ [o], cur := some (a, evs ++ [.create o]) }
+      | none => h
+  | .fix o p v =>
+      let h := finishSim cfg nprop h
+      { h with w := { h.w with orig := fun o' p' => if o' = o ∧ p' = p then v else h.w.orig o' p' } }
+  | .read => match h.cur with
+      | some (_, evs) =>
+          let st := run cfg (initSt h.w h.stale) evs
+          { h with out := h.out ++ ["r=" ++ showReads st.w.read h.objs nprop] }
+      | none => h
+  | .saved s => match h.cur with
+      | some (_, evs) =>
+          let st := run cfg (initSt h.w h.stale) evs
+          let sv := (st.frames.filter (fun f => f.id == s)).flatMap (·.saved)
+          { h with out := h.out ++ ["k=" ++ showSaved sv] }
+      | none => h
+
+/-- N.B. an object created during a simulation gets its initial values written into `orig` when the token is
+    read; since `runSim` is applied to the world at the start of the simulation, `setOrig` for such objects
+    must not disturb earlier observations – objects are never reused with different values in one line. -/
+def handleHist (cfg : Cfg) (ws : List String) : String :=
+  match ws with
+  | np :: rest =>
+    match np.toNat?, rest.mapM parseTok with
+    | some nprop, some toks =>
+      let h := toks.foldl (histStep cfg nprop) { w := World.zero, stale := [], objs := [], cur := none, out := [] }
+      " ".intercalate (finishSim cfg nprop h).out
+    | _, _ => "bad-hist"
+  | [] => "bad-hist"
+
+/-! ### globals -/
+
+def parseGVal (s : String) : Option GVal :=
+  match s with
+  | "none" => some .none | "false" => some .false_ | "true" => some .true_ | "zero" => some .zero
+  | "empty" => some .empty | "orig" => some .orig
+  | _ => if s.startsWith "t" then (s.drop 1).toString.toNat?.map .tok else none
+
+def showGVal : GVal → String
+  | .none => "none" | .false_ => "false" | .true_ => "true" | .zero => "zero" | .empty => "empty" | .orig => "orig"
+  | .tok n => s!"t{n}"
+
+def parseVals (s : String) : Option (List (String × GVal)) :=
+  if s == "" then some [] else
+  (s.splitOn ",").mapM fun t => match t.splitOn "=" with
+    | [n, v] => do pure (n, ← parseGVal v)
+    | _ => none
+
+inductive GTok
+  | op (o : Op) | finish | q
+
+def parseGTok (t : String) : Option GTok :=
+  match t.splitOn ":" with
+  | ["O", vs] => do pure (.op (.opener (← parseVals vs)))
+  | ["P", f, vs] => do pure (.op (.plain f (← parseVals vs)))
+  | ["E", cm, vs] => do pure (.op (.enter cm (← parseVals vs)))
+  | ["X"] => some (.op .exit)
+  | ["D", cm, vs] => do pure (.op (.enterDeferred cm (← parseVals vs)))
+  | ["G", k] => do pure (.op (.exitDeferred (← k.toNat?)))
+  | ["F"] => some .finish
+  | ["q"] => some .q
+  | _ => none
+
+def showG (T : Tables) (g : GState) : String :=
+  ",".intercalate (T.initial.map fun e => s!"{e.1}={showGVal (g e.1)}")
+
+structure GH where
+  ops : List Op
+  late : Option (List Nat)
+  out : List String
+
+def globStep (T : Tables) (h : GH) : GTok → GH
+  | .op o => match h.late with
+      | none => { h with ops := h.ops ++ [o] }
+      | some l => match o with
+          | .exitDeferred k => { h with late := some (l ++ [k]) }
+          | _ => h
+  | .finish => { h with late := some [] }
+  | .q => match h.late with
+      | none => { h with out := h.out ++ [showG T (h.ops.foldl (applyOp T) (initGS T)).g] }
+      | some l => { h with out := h.out ++ [showG T (session T h.ops l)] }
+
+def handleGlob (ws : List String) : String :=
+  match ws with
+  | sess :: rest =>
+    let T := if sess == "compile" then Scenic.Gen.compileTables else Scenic.Gen.simTables
+    match rest.mapM parseGTok with
+    | some toks => " ".intercalate (toks.foldl (globStep T) { ops := [], late := none, out := [] }).out
+    | none => "bad-glob"
+  | [] => "bad-glob"
+
+def showMerge : MergeMode → String
+  | .keepOldest => "keepOldest" | .firstDictOnly => "firstDictOnly" | .overwriteDict => "overwriteDict"
+
+def handleSide : String :=
+  let c := Scenic.Gen.simCfg
+  let st := Scenic.Gen.simTables
+  let ct := Scenic.Gen.compileTables
+  s!"order={b2s (safeOrder c.order)} clears={b2s c.stopClears} agents={b2s c.agentsEarly} merge={showMerge c.merge} " ++
+  s!"steps={b2s (c.order.contains .disableProxies && c.order.contains .stopScenarios && c.order.contains .endSimulation)} " ++
+  s!"simclose={b2s (wfClose st && wfCms st)} compclose={b2s (wfClose ct && wfCms ct)} " ++
+  s!"simwrites={b2s (wfWrites st)} compwrites={b2s (wfWrites ct)} susp={b2s st.suspended.isEmpty} " ++
+  s!"simleaks={",".intercalate (leaks st)} compleaks={",".intercalate (leaks ct)} suspended={",".intercalate st.suspended}"
 
 def handle : List String → String
+  | "side" :: _ => handleSide
+  | "hist" :: rest => handleHist Scenic.Gen.simCfg rest
+  | "glob" :: rest => handleGlob rest
   | _ => "bad-op"
 
 end Driver.C14
